@@ -8,7 +8,7 @@ from vlib.core import Leg, Result, exc_failure, excluded_hazards
 ID = 'C17'
 RULE = ('cases: p in [0,3] plain statements, one CREATE [OR REPLACE] FUNCTION|PROCEDURE|TRIGGER with a BEGIN ... END body from the procedural grammar '
         '(nested BEGIN..END, IF..ELSIF..ELSE..END IF, WHILE..DO..END WHILE, LOOP..END LOOP, FOR/WHILE..LOOP..END LOOP, CASE..END CASE, CASE expressions incl. '
-        'nested, DECLARE sections, labels; depth <=3), q in [0,3] plain statements, every statement ;-terminated, drawn whitespace/comments/casing; '
+        'nested, DECLARE sections in front of and inside BEGIN with variable and cursor declarations (c CURSOR FOR query, CURSOR c IS query FOR UPDATE), handlers, OPEN c FOR, SELECT .. FOR UPDATE, nested DDL, labels; depth <=3), q in [0,3] plain statements, every statement ;-terminated, drawn whitespace/comments/casing; '
         'split()/parse() must return exactly the p+1+q statements with every lexeme inside the piece of its own statement. non-trivial: body has >=2 '
         'construct kinds, block nesting >=2 and q>=1 (a swallow is observable); distinct by script text')
 ASSUMPTIONS = ['multi-word keywords are written with single inner blanks (respelling is C11)',
